@@ -12,8 +12,12 @@ package harness
 import (
 	"fmt"
 	"hash/fnv"
+	"reflect"
 	"strings"
 	"testing"
+
+	codectypes "github.com/cosmos/cosmos-sdk/codec/types"
+	sdk "github.com/cosmos/cosmos-sdk/types"
 )
 
 type c20State struct {
@@ -71,6 +75,16 @@ func (s *c20State) exec(line string) string {
 			return "bad-op"
 		}
 		return s.execTx(line, f)
+	case "path":
+		if s.ante == nil || len(f) < 3 {
+			return "bad-op"
+		}
+		return s.execPath(line, f)
+	case "wrappers":
+		if s.ante == nil {
+			return "bad-op"
+		}
+		return s.execWrappers(line)
 	case "own", "fix", "priv", "ext":
 		if s.priv == nil {
 			return "bad-op"
@@ -171,6 +185,83 @@ func (s *c20State) execTx(line string, f []string) string {
 	s.seq = append(s.seq, "tx:"+obs)
 	s.nontr = true
 	return obs
+}
+
+// the node a path addresses in the REAL transaction (SDK accessors), to be compared with M-Ante's reach
+func (s *c20State) execPath(line string, f []string) string {
+	var path []int
+	if f[1] != "-" {
+		for _, x := range strings.Split(f[1], ",") {
+			var v int
+			if _, err := fmt.Sscanf(x, "%d", &v); err != nil {
+				return "bad-op"
+			}
+			path = append(path, v)
+		}
+	}
+	var n int
+	if _, err := fmt.Sscanf(f[2], "%d", &n); err != nil || n < 0 {
+		return "bad-op"
+	}
+	roots, rest, err := c20ParseNodes(f[3:], n)
+	if err != nil || len(rest) != 0 {
+		return "bad-op"
+	}
+	tx, err := s.ante.makeTx(roots)
+	if err != nil {
+		return "bad-op"
+	}
+	obs := s.ante.reachReal(tx, path)
+	s.r.Hit("ante/path/" + strings.Fields(obs)[0])
+	s.seq = append(s.seq, "path:"+obs)
+	return obs
+}
+
+// which registered message types execute packed messages — asked of the real interface registry;
+// every one of them must be unwrapped by the reject decorator (checked by nesting a disabled
+// message inside it)
+func (s *c20State) execWrappers(line string) string {
+	r, h := s.r, s.ante
+	names, urls := h.probeWrappers()
+	replay := append(append([]string{}, s.hdr...), line)
+	known := map[string]bool{}
+	for _, a := range c20Wrappers {
+		known[h.urlOf[a]] = true
+	}
+	for i, u := range urls {
+		r.Hit("ante/registry-wrapper/" + u)
+		if known[u] {
+			continue
+		}
+		// a message-carrying type the harness does not know: nest a vesting message and ask the ante handler
+		fresh, err := h.f.App.InterfaceRegistry().Resolve(u)
+		if err != nil {
+			continue
+		}
+		accepted := false
+		rv := reflect.ValueOf(fresh).Elem()
+		for j := 0; j < rv.NumField(); j++ {
+			if rv.Field(j).Type() == reflect.TypeOf([]*codectypes.Any{}) {
+				rv.Field(j).Set(reflect.ValueOf([]*codectypes.Any{mustAny(h.kinds["V1"].proto(h))}))
+			} else if rv.Field(j).Type() == reflect.TypeOf(&codectypes.Any{}) {
+				rv.Field(j).Set(reflect.ValueOf(mustAny(h.kinds["V1"].proto(h))))
+			}
+		}
+		if sm, ok := fresh.(sdk.Msg); ok {
+			txb := h.f.App.TxConfig().NewTxBuilder()
+			if txb.SetMsgs(sm) == nil {
+				obs, _ := h.runAnte(txb.GetTx())
+				accepted = obs == "ok"
+			}
+		}
+		if accepted {
+			r.Violate("C20/nesting/wrapper-type-not-unwrapped", "registered message type "+names[i]+" ("+u+") carries packed messages but a disabled message inside it passes the reject decorator", replay...)
+		} else {
+			r.Hit("ante/registry-wrapper-unknown-to-harness-but-rejected/" + u)
+		}
+	}
+	s.seq = append(s.seq, "wrappers")
+	return strings.Join(names, ",")
 }
 
 func min(a, b int) int {
@@ -335,6 +426,8 @@ func TestC20(t *testing.T) {
 			run(l)
 		}
 	}
+	startAnte()
+	run("wrappers")
 	// exhaustive chains
 	chainDepth := r.N(4, 7)
 	leafs := []*c20Node{leaf("X"), leaf("U"), leaf("V1"), leaf("V2"), leaf("V3"), leaf("S"),
@@ -356,7 +449,32 @@ func TestC20(t *testing.T) {
 			startAnte()
 		}
 		roots := c20RandomTx(r.Rng)
-		run(c20TxLine(roots))
+		line := c20TxLine(roots)
+		run(line)
+		if r.Rng.Chance(25) {
+			// a path: mostly one that exists (random walk down the tree), sometimes perturbed
+			var path []string
+			cur := roots
+			for len(cur) > 0 {
+				ix := r.Rng.Intn(len(cur))
+				path = append(path, fmt.Sprint(ix))
+				if r.Rng.Chance(25) {
+					break
+				}
+				cur = cur[ix].kids
+			}
+			if r.Rng.Chance(30) {
+				switch r.Rng.Intn(3) {
+				case 0:
+					path = append(path, "0")
+				case 1:
+					path[len(path)-1] = "7"
+				default:
+					path = append(path, fmt.Sprint(r.Rng.Intn(3)), "0")
+				}
+			}
+			run("path " + strings.Join(path, ",") + strings.TrimPrefix(line, "tx"))
+		}
 	}
 
 	// ---- part 2: authority / owner guards
